@@ -99,8 +99,13 @@ def show_replay(path):
             print("# the order that differs:")
             print(topy.c13_program(prog, payload["merge"]))
     else:
+        if payload.get("kind") == "history":
+            for k, pr in enumerate(payload.get("prelude") or []):
+                print(f"# ---- earlier in the same interpreter (prelude program {k}): every object below is rendered once")
+                print(topy.program(pr["program"], None))
+            print("# ---- then, in the same interpreter, the program whose output differs from a fresh interpreter's:")
         print(topy.program(prog, payload.get("victim")))
-    for k in ("differs_on", "observed", "expected", "plan"):
+    for k in ("differs_on", "observed", "expected", "after_prelude", "fresh_interpreter", "this_process", "other_process", "plan"):
         if k in payload and k != "plan":
             print(f"# {k}: {json.dumps(payload[k])[:600]}")
     if payload.get("plan"):
